@@ -341,7 +341,7 @@ class FiniteFam:
     LEVEL = "exploration"
     ASSUMPTIONS = ["argument classes: huge 1E308, tiny 1E-308, -1E308, 0, 1, -1, 0.5, empty cell, TRUE, text, the texts \"1E308\" and \"inf\", #DIV/0!; vectors of length 0-2 (thorough: 0-3); shapes: literal arguments, arguments by cell reference, two-element array literals, two-cell ranges, CSE array formula, dynamic-array spill",
                    "each vector x shape is crossed with every built-in function (Function::into_iter(), hook H2) and with every binary and unary operator; all cells are scanned afterwards through the public workbook value for NaN and infinities",
-                   "11 functions whose running time grows with the VALUE of an argument (FACT, FACTDOUBLE, COMBIN, COMBINA, PERMUT, MULTINOMIAL, REPT, BESSELJ, BESSELK, TINV, T.INV.2T) do not return for huge arguments and are left out (thorough tier re-probes the list in child processes); a batch that does not finish within 60 s is skipped and counted",
+                   "11 functions whose running time grows with the VALUE of an argument (FACT, FACTDOUBLE, COMBIN, COMBINA, PERMUT, MULTINOMIAL, REPT, BESSELJ, BESSELK, TINV, T.INV.2T) do not return for huge arguments and are left out (thorough tier re-probes the list in child processes); a batch that does not finish within 20 s is skipped and counted",
                    "a panic during evaluation is reported under this property (an overflow must become an error value)"]
 
     @staticmethod
